@@ -126,6 +126,8 @@ static void vec_step(std::unique_ptr<Vector>& v, vh::Reader& r)
 	else if(st == "dv") { double x = r.num(); *v = *v / x; }
 	else if(st == "z") { long p = r.integer(); *v = Vector((unsigned int) p); }
 	else if(st == "df") { *v = Vector(); }
+	else if(st == "nz") { v->Normalize(); }
+	else if(st == "nd") { *v = v->Normalized(); }
 	else { std::fprintf(stderr, "unknown step\n"); std::abort(); }
 }
 // a matrix / vector argument of an operation: the object itself is handed on (live object, or the object the history ran on)
@@ -210,6 +212,8 @@ static void dispatch(const std::string& op, vh::Reader& r, vh::Out& o)
 	else if(op == "v_op_mul") { Vector &u = rd_vec(r), &v = rd_vec(r); o.f(u * v); }
 	else if(op == "v_cross") { Vector &u = rd_vec(r), &v = rd_vec(r); put(o, u.Cross(v)); }
 	else if(op == "v_norm") { Vector& u = rd_vec(r); o.f(u.Norm()); }
+	else if(op == "v_normalized") { Vector& u = rd_vec(r); put(o, u.Normalized()); }
+	else if(op == "v_normalize") { Vector& u = rd_vec(r); u.Normalize(); put(o, u); }
 	else if(op == "v_add") { Vector &u = rd_vec(r), &v = rd_vec(r); put(o, u + v); }
 	else if(op == "v_sub") { Vector &u = rd_vec(r), &v = rd_vec(r); put(o, u - v); }
 	else if(op == "v_add_assign") { Vector &u = rd_vec(r), &v = rd_vec(r); u += v; put(o, u); }
@@ -305,6 +309,24 @@ static void dispatch(const std::string& op, vh::Reader& r, vh::Out& o)
 		put(o, row_matrix(u) * column_matrix(v));
 		put(o, Outer_Vector_Product(u, v));
 		put(o, column_matrix(u) * row_matrix(v));
+	}
+	else if(op == "law_vecmat_tr")
+	{
+		Vector& v = rd_vec(r);
+		Matrix& A = rd_mat(r);
+		Vector& w = rd_vec(r);
+		put(o, v * A);
+		put(o, A.Transpose() * v);
+		put(o, A * w);
+		put(o, w * A.Transpose());
+	}
+	else if(op == "law_trsum")
+	{
+		Matrix &A = rd_mat(r), &B = rd_mat(r);
+		put(o, (A + B).Transpose());
+		put(o, A.Transpose() + B.Transpose());
+		put(o, (A - B).Transpose());
+		put(o, A.Transpose() - B.Transpose());
 	}
 	else if(op == "law_cross")
 	{
